@@ -77,6 +77,14 @@ def auxDT : DT → DT
   | .flt b => .flt b
   | _ => .flt 64
 
+/-- every numeric cell (and record field) is exactly representable in float64 — required before
+    any path that converts integers to floating point (otherwise the case is discarded) -/
+def cellsFitF64 (sp : Array Val) : Bool :=
+  sp.all fun v => match v with
+    | .num n e => fitsFloat 64 (n, e) || decide (n.natAbs > 2 ^ 100)     -- the UNSEEN sentinels are exact
+    | .recd l => l.all fun x => fitsFloat 64 x || decide (x.1.natAbs > 2 ^ 100)
+    | _ => true
+
 /-- `_degrade(nside_out, reduction, weights)` for `nside_coverage ≤ nside_out < nside_sparse` -/
 def apiDegradeCore (m : MapObj) (ordOut : Nat) (red : String) (w : Option MapObj) : Except Err MapObj := do
   let g := 2 * (m.spord - ordOut)
@@ -97,6 +105,7 @@ def apiDegradeCore (m : MapObj) (ordOut : Nat) (red : String) (w : Option MapObj
           | _, _ => throw .index
         | _ => throw .value
   let wOf (x : Val) : Int × Nat := x.numD
+  if !(red == "and" || red == "or") && !cellsFitF64 m.st.sp then throw .inexact
   match m.kind with
   | .packed => throw .notImpl
   | .wide n =>
